@@ -3,7 +3,9 @@
 Space: every token string up to length n over a 46-token alphabet of Hy's
 syntax-significant characters and short tokens, plus every single-token
 deletion / insertion / replacement of each program of a fixed corpus of valid
-programs.
+programs; plus "pumped" texts: every token repeated 48 (thorough: also 400)
+times between each of 9 prefixes and each suffix of <= 2 tokens over 7
+characters (super-linear reader steps show as the watchdog firing).
 Oracle (invariant on every execution): list(hy.read_many(s)) returns, or
 raises LexException / PrematureEndOfInput (both SyntaxError subclasses); any
 other exception type, or not terminating within the watchdog, is a violation.
@@ -50,13 +52,32 @@ TIME_CAP = {"quick": 600, "thorough": 3600}
 
 def bounds(tier):
     b = BOUNDS[tier]
-    return {"alphabet": ALPHA, "max_tokens": b["n"], "core_alphabet": CORE if b["core_n"] else [],
+    return {"pumped_texts": {"token_repeats": PUMP_K[tier], "prefixes": PUMP_PRE, "suffixes": "all strings of <= 2 tokens over %r" % PUMP_SUF_ALPHA},
+            "alphabet": ALPHA, "max_tokens": b["n"], "core_alphabet": CORE if b["core_n"] else [],
             "core_max_tokens": b["core_n"], "corpus": CORPUS, "corpus_edits": "every single-token deletion, insertion, replacement"}
+
+
+# "pumped" texts: one token repeated PUMP_K times between a short prefix and a short suffix.  A reader step whose cost
+# grows faster than linearly in the length of a token run (backtracking, re-scanning) shows as the watchdog firing.
+PUMP_K = {"quick": [48], "thorough": [48, 400]}
+PUMP_PRE = ["", "(", ".", '"', "#[", 'f"', ":", "a.", "#"]
+PUMP_SUF_ALPHA = [".", "a", ")", '"', " ", "#", ":"]
+
+
+def pump_cases(tier, ti):
+    import itertools
+    t = ALPHA[ti]
+    sufs = [""] + ["".join(c) for n in (1, 2) for c in itertools.product(PUMP_SUF_ALPHA, repeat=n)]
+    for k in PUMP_K[tier]:
+        for pre in PUMP_PRE:
+            for suf in sufs:
+                yield pre + t * k + suf
 
 
 def _shards_main(tier):
     b = BOUNDS[tier]
-    out = [["full", lo, hi] for lo, hi in enumer.string_shards(len(ALPHA), b["n"], b["shards"])]
+    out = [["pump", ti, 0] for ti in range(len(ALPHA))]
+    out += [["full", lo, hi] for lo, hi in enumer.string_shards(len(ALPHA), b["n"], b["shards"])]
     if b["core_n"]:
         # strings over the core alphabet longer than the full bound
         lo0 = enumer.count_strings(len(CORE), b["n"])
@@ -139,7 +160,12 @@ def _run_shard_main(shard, tier):
     b = BOUNDS[tier]
     acc = Acc()
     kind, lo, hi = shard
-    if kind == "full":
+    if kind == "pump":
+        for n, s in enumerate(pump_cases(tier, lo)):
+            _case(acc, s, PUMP_K[tier][0])
+            if n % 211 == 7:
+                acc.sample(s[:20] + "..." + s[-6:])
+    elif kind == "full":
         for idx, toks in enumer.iter_strings(ALPHA, lo, hi, b["n"]):
             _case(acc, "".join(toks), len(toks))
             if idx % 50021 == 0:
